@@ -120,11 +120,26 @@ def check_checkjump(ctx, res, rule="R-LIMIT", boundary=False):
     body = lim_loop.ast.body
     bad_cases = []
     n_cases = 0
-    for lo in (None, 0):
-        for hi in (None, 10):
-            vals = [(-1, "below"), (5, "inside"), (11, "above")]
+    shapes = [(lo, hi) for lo in (None, 0) for hi in (None, 10)] + [(-5, 0), (None, 0), (-5, None)]   # zero and negative bounds are bounds too
+    for lo, hi in shapes:
+        if True:
+            lo_v = -10 ** 6 if lo is None else lo
+            hi_v = 10 ** 6 if hi is None else hi
+            mid = 5 if (lo, hi) in ((None, None), (0, None), (None, 10), (0, 10)) else (-2 if hi == 0 else 3)
+            vals = [(mid, "inside")]
+            if lo is not None:
+                vals.append((lo - 1, "below"))
+            else:
+                vals.append((-1 if hi != 0 else -7, "inside"))
+            if hi is not None:
+                vals.append((hi + 1, "above"))
+            else:
+                vals.append((11, "inside"))
             if boundary:
-                vals += [(0, "exactly at the lower end of"), (10, "exactly at the upper end of")]
+                if lo is not None:
+                    vals.append((lo, "exactly at the lower end of"))
+                if hi is not None:
+                    vals.append((hi, "exactly at the upper end of"))
             for val, where in vals:
                 n_cases += 1
                 expect_fail = (lo is not None and val < lo) or (hi is not None and val > hi)
@@ -132,7 +147,9 @@ def check_checkjump(ctx, res, rule="R-LIMIT", boundary=False):
                 if got is None:
                     res.undecided(rule, f, "limit-cases", "limit test body is not in a form the abstract evaluation understands")
                     return None
-                if got != expect_fail:
+                if got == "raise":
+                    bad_cases.append("limits (%s, %s), proposed value %s the limits: the test raises TypeError (comparison with None)" % (lo, hi, where))
+                elif got != expect_fail:
                     bad_cases.append("limits (%s, %s), proposed value %s the limits: %s" % (lo, hi, where, "rejected" if got else "accepted"))
     res.check(not bad_cases and not has_break, rule, f, "limit-cases",
               "all %d (lower, upper, value) cases decided correctly: a proposed value is rejected iff it is below a present lower or above a present upper bound" % n_cases,
@@ -268,7 +285,9 @@ def _run_limit_body(body, el, idx, x_new, lo, hi, val, fail_var):
                 raise KeyError(type(st).__name__)
     try:
         run(body)
-    except (KeyError, TypeError, IndexError):
+    except TypeError:
+        return "raise"       # python 3 raises on ordering comparisons with None: the step crashes instead of being judged
+    except (KeyError, IndexError):
         return None
     return bool(env[fail_var])
 
